@@ -78,6 +78,20 @@ def _args_py(args):
     return out
 
 
+def _index_errors(p):
+    """every integer outside [-len, len) is rejected"""
+    n = len(p)
+    for i in (n, n + 1, -n - 1, -n - 2, -2 * n, -2 * n - 1, 2 * n, 10 * n + 3):
+        if -n <= i < n:
+            continue
+        try:
+            p[i]
+            return False
+        except IndexError:
+            pass
+    return True
+
+
 def _n_py(case):
     from decimal import Decimal
     n = case["n"]
@@ -130,7 +144,8 @@ def impl_run(case):
             q = P(*[args[i] for i in case["perm"]])
             return {"ok": [hist_items(h) for h in p], "total": p.total, "perm_eq": p == q and not (p != q),
                     "perm_same_order": [hist_items(h) for h in q] == [hist_items(h) for h in p],
-                    "index_ok": all(hist_items(p[i]) == hist_items(h) for i, h in enumerate(p)), "len": len(p),
+                    "index_ok": all(hist_items(p[i]) == hist_items(h) and hist_items(p[i - len(p)]) == hist_items(h)
+                                    for i, h in enumerate(p)) and _index_errors(p), "len": len(p),
                     # a slice (any step) is the pool of the sliced dice: same canonical order as building it afresh
                     "slices_ok": all([hist_items(h) for h in p[sl]] == [hist_items(h) for h in P(*tuple(p)[sl])]
                                      and p[sl] == P(*tuple(p)[sl]) and p[sl].total == P(*tuple(p)[sl]).total
